@@ -207,6 +207,9 @@ func TestWithEqualsCallSite(t *testing.T) {
 			st.colorful = rapid.Bool().Draw(t, "colorful")
 		}
 		ctxChain := lm.GenChain(genOpts, 3).Draw(t, "context")
+		if rapid.IntRange(0, 24).Draw(t, "deepContext") == 0 {
+			ctxChain = lm.GenDeepChain(genOpts).Draw(t, "deep") // the With happens below many open groups
+		}
 		a := lm.GenNodes(genOpts, 3).Draw(t, "a")
 		b := lm.GenNodes(genOpts, 3).Draw(t, "b")
 		if len(a) == 0 {
